@@ -7,7 +7,7 @@ import tinydb
 
 from .ldm_constants import DATA_OBJECT_FIELD_NAME, OPERATOR_MAPPING
 from .database import DataBase
-from .ldm_classes import Filter, FilterStatement, RequestDataObjectsReq
+from .ldm_classes import Filter, FilterStatement, RequestDataObjectsReq, Utils
 
 
 class TinyDB(DataBase):
@@ -345,7 +345,11 @@ class TinyDB(DataBase):
 
             nested_fields = field_name.split(".")
             for document in to_check:
-                if self._field_exists(document, nested_fields):
+                # A dotted path from the root of the document, or (as in the Dictionary
+                # database) a field name at any depth of the document
+                if self._field_exists(document, nested_fields) or Utils.check_field(
+                    document, field_name
+                ):
                     return True
             return False
 
